@@ -282,7 +282,7 @@ class Extractor:
         for b in rec.get('bases', []):
             raise ExtractError('struct %s has base classes' % qname)
         if not fields:
-            raise ExtractError('struct %s has no fields' % qname)
+            fields = [('char', 'vf_empty')]     # stateless functor (C has no empty structs)
         self.structs[cn] = fields
         return cn
 
@@ -1110,6 +1110,11 @@ class FnTranslator:
                 return '(%s = %s)' % (self.expr(args[0]), self.expr(args[1]))
             if name == 'operator[]' and recq.startswith('std::array'):
                 return '%s[%s]' % (self.expr(args[0]), self.expr(args[1]))
+            if recq.startswith(('fixedmath', 'vfspec')) and decl.get('storageClass') != 'static':
+                # user-provided const member operator (functor call): ordinary const member function
+                cn = self.ex.require_node(decl)
+                ax = self.args_for(decl, args[1:], n)
+                return '%s(%s)' % (cn, ', '.join([self.expr(args[0])] + ax))
             self.fail(n, 'member operator %s of %s' % (name, recq))
         cn = self.ex.require_node(decl)
         ax = self.args_for(decl, args, n)
